@@ -104,3 +104,18 @@ mutant("c05-secant-unbounded", "C05", "R5.3", (BD, "                return Ok(gu
 mutant("c05-one-tenth", "C05", "R5.4/RungeKutta::solve/const:one_tenth", (RK, "Self::Field::one() / Self::Field::from_u8(10).ok_or(IVPError::FromPrimitiveFailure)?;", "Self::Field::from_u8(10).ok_or(IVPError::FromPrimitiveFailure)?;"))
 mutant("c05-rk-redo-before-update", "C05", "R5.2/RungeKuttaSolver::step", (RK, "        let delta = self.point_eighty_four.real()", "        if error > self.tolerance.real() && self.dt.real() > self.dt_min.real() {\n            return Err(IVPStatus::Redo);\n        }\n        let delta = self.point_eighty_four.real()"))
 benign("c05-secant-bound", "C05", (BD, "while n < 1000 {", "while n <= 999 {"))
+
+# ---- C07
+RT = "src/roots/mod.rs"
+mutant("c07-bisect-midpoint", "C07", "R7.2/roots::bisection/entry-midpoint-in-hull", (RT, "let mut half_interval = (right - left) * half;", "let mut half_interval = (left - right) * half;"))
+mutant("c07-bisect-origin", "C07", "R7.3/roots::bisection/success-disjunct", (RT, "if (middle - middle_new).abs() < tol * middle_new.abs().max(N::one()) {", "if (middle - middle_new).abs() < tol * middle_new.abs().max(N::one()) || middle_new.abs() < tol {"))
+mutant("c07-bisect-no-order-guard", "C07", "R7.1/roots::bisection/guard:left<right", (RT, "    if left >= right {\n        return Err(\"Bisection: requirement: right > left\".to_owned());\n    }\n", ""))
+mutant("c07-bisect-cache", "C07", "R7.4/roots::bisection/attached", (RT, "            left = middle;\n            f_a = f_p;\n", "            left = middle;\n"))
+mutant("c07-bisect-wrong-end", "C07", "R7.", (RT, "        } else {\n            right = middle;\n        }\n\n        half_interval = (right - left) * half;", "        } else {\n            right = middle + half_interval;\n        }\n\n        half_interval = (right - left) * half;"))
+mutant("c07-brent-sign-guard", "C07", "R7.1/roots::brent/guard:sign-change", (RT, "    if !(f_left * f_right).is_sign_negative() {\n        return Err(\"brent: initial guesses do not bracket root\".to_owned());\n    }\n", ""))
+mutant("c07-brent-cache", "C07", "R7.4/roots::brent/attached", (RT, "            right = s;\n            f_right = f_s;\n        } else {\n            left = s;\n            f_left = f_s;", "            right = s;\n            f_right = f_s;\n        } else {\n            left = s;\n            f_left = f_right;"))
+mutant("c07-itp-k2", "C07", "R7.1/roots::itp/guard:k_2", (RT, "if k_2 <= N::one() || k_2 >=", "if k_2 < N::zero() || k_2 >="))
+mutant("c07-itp-sigma", "C07", "R7.5/roots::itp", (RT, "let sigma = (x_half - x_f).signum();", "let sigma = (x_half - x_f) / (x_half - x_f).abs();"))
+mutant("c07-itp-signs", "C07", "R7.6/roots::itp", (RT, "        if f_itp > N::zero() {\n            right = x_itp;\n            f_right = f_itp;\n        } else if f_itp < N::zero() {", "        if f_itp.is_sign_positive() {\n            right = x_itp;\n            f_right = f_itp;\n        } else if f_itp.is_sign_negative() {"))
+mutant("c07-itp-tol-guard", "C07", "R7.1/roots::itp/guard:tol", (RT, "    if !tol.is_sign_positive() {\n        return Err(\"itp: tolerance must be positive\".to_owned());\n    }\n", ""))
+benign("c07-bisect-refactor", "C07", (RT, "        half_interval = (right - left) * half;\n\n        let middle_new = left + half_interval;", "        half_interval = (right - left) * half;\n\n        let middle_new = right - half_interval;"))
